@@ -107,5 +107,16 @@ Example ex_parsed :
   exists e, vs [33;40;107;105;110;100;40;108;105;98;41;32;45;32;112;108;97;116;102;111;114;109;40;104;111;115;116;41;41;32;111;114;32;116;101;115;116;40;126;97;92;44;98;41] /\
             parse accept_all [33;40;107;105;110;100;40;108;105;98;41;32;45;32;112;108;97;116;102;111;114;109;40;104;111;115;116;41;41;32;111;114;32;116;101;115;116;40;126;97;92;44;98;41] = POk e.
 Proof. eexists. split; [reflexivity|]. vm_compute. reflexivity. Qed.
-Example ex_rx_sane : rx_sane accept_all.
-Proof. intros p off len H. discriminate. Qed.
+(* the hypothesis of C20_spans_within, for an oracle that does report errors: [paren_engine]
+   rejects every regex containing "(" with the byte span of the first one (accept_all, which never
+   errs, satisfies rx_sane only vacuously) ... *)
+Example ex_rx_sane : rx_sane paren_engine.
+Proof. exact paren_engine_sane. Qed.
+(* ... and it does err: "test(/é(b/)" is rejected with the span of the "(" inside the pattern --
+   byte 8 of the input (é takes two bytes), length 1 -- within the 12 bytes of the input *)
+Example ex_rx_sane_errs :
+  regex_check paren_engine [233; 40; 98] = RxErr 2 1
+  /\ parse paren_engine [116;101;115;116;40;47;233;40;98;47;41] = PErr [(8, 1)]
+  /\ blen [116;101;115;116;40;47;233;40;98;47;41] = 12
+  /\ regex_check paren_engine [97; 98] = RxOk.
+Proof. repeat split; vm_compute; reflexivity. Qed.
